@@ -32,6 +32,10 @@ class _Sum(ModelObject):
         raise Unsupported(name)
 
 
+NC_VARIABLE_API = ("shape", "dtype", "datatype", "dimensions", "size", "ndim", "name", "getValue", "get_dims", "group", "set_auto_mask", "set_auto_maskandscale",
+                   "set_auto_scale", "set_auto_chartostring", "set_always_mask", "mask", "scale", "chunking", "filters", "endian", "setncattr", "getncattr", "setncatts", "delncattr", "assignValue")
+
+
 class RVar(ModelObject):
     def __init__(self, name, attrs=None):
         self.name = name
@@ -44,7 +48,9 @@ class RVar(ModelObject):
             return f
         if name in self.attrs:
             return self.attrs[name]
-        raise PyRaise("AttributeError", (name,))
+        if name in NC_VARIABLE_API:
+            raise Unsupported(f"netCDF Variable attribute {name} is not modelled")
+        raise PyRaise("AttributeError", (name,))  # a netCDF attribute the variable does not have
 
     def pv_getitem(self, cx, idx):
         total = cum_f(nrec)
@@ -93,7 +99,15 @@ class RFile(ModelObject):
             f = lambda interp, flag: None  # noqa: E731
             f._pyvc_model = True
             return f
-        raise PyRaise("AttributeError", (name,))
+        if name in ("close", "sync"):  # all values the contract speaks of are read into arrays before the file may be closed
+            me = self
+
+            def f(interp):
+                me.closed = getattr(me, "closed", 0) + (name == "close")
+
+            f._pyvc_model = True
+            return f
+        raise Unsupported(f"netCDF Dataset attribute {name} is not modelled")
 
 
 class WarmStart(Spec):
